@@ -229,6 +229,8 @@ def build(inst, inj, *, custom_solver=False, poison=(), copies=None, shared=None
         H, concrete = data_series(inst)
     elif input_kind == "lazy_sympy":
         H, concrete = user_series(inst, inj, poison=poison, symbolic=True)
+    elif input_kind == "lazy_implicit":
+        H, concrete = user_series(inst, inj, poison=poison, copies=copies)
     else:
         H, concrete = user_series(inst, inj, poison=poison, copies=copies)
     kw = {}
@@ -236,7 +238,14 @@ def build(inst, inj, *, custom_solver=False, poison=(), copies=None, shared=None
         kw["solve_sylvester"] = diag_solver(inst, inj)
     else:
         kw["fully_diagonalize"] = hermitian.fd_argument(inst)
-    if input_kind not in ("algebra", "data_series"):
+    if input_kind == "lazy_implicit":
+        # IMPLICIT mode: only the explicit blocks 0..nb-2 are designated (standard basis vectors, H_0 is
+        # diagonal), the last block is the complement; default direct solver
+        d, nbk = inst["d"], len(inst["sizes"])
+        eye = np.eye(d)
+        kw["subspace_eigenvectors"] = [np.ascontiguousarray(eye[:, [i for i in range(d) if inst["sub_idx"][i] == b]])
+                                       for b in range(nbk - 1)]
+    elif input_kind not in ("algebra", "data_series"):
         kw["subspace_indices"] = list(inst["sub_idx"])
     with warnings.catch_warnings():
         warnings.simplefilter("ignore")
